@@ -259,6 +259,8 @@ class Script:
         self.robots_replies = robots_replies      # None: /robots.txt is an ordinary page
         self.rlog = []         # requests for /robots.txt when robots_replies is given
         self.on_request = None  # callback(k, head) when the k-th page request has arrived, before it is answered
+        self.conns = []        # per entry of log: the connection object the request came in on (bytes consumed by the client)
+        self.feeders = []      # tasks of the never-ending response heads
         self.tunnels = []      # per entry of log: the CONNECT target of the connection the request came in on, or None
         self.rtunnels = []     # the same for rlog
         self.connects = []     # (ip, port, head) of every CONNECT request (the server plays an HTTP proxy too)
@@ -318,6 +320,7 @@ class ScriptServer:
             else:
                 k = len(self.script.log)
                 self.script.log.append((conn.address[0], conn.address[1], self.head, body))
+                self.script.conns.append(conn)
                 self.script.tunnels.append(self.tunnel)
                 replies = self.script.replies
                 if self.script.on_request:
@@ -331,6 +334,27 @@ class ScriptServer:
             if mode == 'garbage':
                 conn.send(b'\x00\xffnot http at all\r\n\r\n')
                 conn.close()
+                return
+            if mode in ('endless-1xx', 'endless-headers'):
+                # a response HEAD that never ends: interim 1xx blocks / short header lines, fed as fast as the client
+                # reads them, up to a cap (so that the run ends whatever the client does)
+                cap = rep.get('cap', 400000)
+                if mode == 'endless-headers':
+                    conn.send(b'HTTP/1.1 200 OK\r\n')
+
+                async def feed(conn=conn, mode=mode, cap=cap):
+                    fed, n = 0, 0
+                    while not conn.client_closed and not conn.server_closed and fed < cap:
+                        if len(conn.reader._buffer) < 2048:
+                            block = (b'HTTP/1.1 100 Continue\r\n\r\n' if mode == 'endless-1xx'
+                                     else b'X-Filler-%d: %s\r\n' % (n, b'v' * 40))
+                            conn.send(block)
+                            fed += len(block)
+                            n += 1
+                        else:
+                            await asyncio.sleep(0)
+                    conn.close()
+                self.script.feeders.append(asyncio.ensure_future(feed()))
                 return
             if mode == 'cutbody':
                 # the header arrives, the connection is lost in the middle of the body
@@ -463,7 +487,7 @@ def run_session(url, replies, max_redirects=20, use_jar=True, factory_pairs=(('U
                             outcome = 'runaway'
                             break
                         task = asyncio.ensure_future(compat._ensure(sess.start()))
-                        if not await fakenet.settle(task, [], extra=60):
+                        if not await fakenet.settle(task, script.feeders, extra=60, limit=400000):
                             task.cancel()
                             outcome = 'stalled'
                             break
@@ -480,6 +504,12 @@ def run_session(url, replies, max_redirects=20, use_jar=True, factory_pairs=(('U
             li = 0
             for k in range(len(script.log)):
                 rep = replies[k] if k < len(replies) else {'status': 200, 'mode': 'resp'}
+                if rep.get('mode', 'resp') == 'endless-1xx':
+                    if li < len(loads):
+                        li += 1
+                    mreplies.append((100, False, 0, None))
+                    bases.append(None)
+                    continue
                 if rep.get('mode', 'resp') != 'resp':
                     mreplies.append((0, False, 3 if rep['mode'] == 'close' else 4, None))
                     bases.append(None)
@@ -488,7 +518,12 @@ def run_session(url, replies, max_redirects=20, use_jar=True, factory_pairs=(('U
                     st, loc, base = loads[li]
                     li += 1
                 else:
-                    raise Infra('response without RedirectTracker.load')
+                    # the response never reached the tracker (the session was cut while still reading): take it from the script
+                    _p, _m, _target, _v, _fields = split_request(script.log[k][2])
+                    _hostv = [v for n, v in _fields if n.lower() == 'host']
+                    st = rep['status']
+                    loc = rep['location'].decode('latin-1').strip() if rep.get('location') is not None else None
+                    base = 'http://%s%s' % (_hostv[0] if _hostv else 'unknown.invalid', _target.decode('latin-1'))
                 bases.append(base)
                 kind, c = 0, None
                 if loc:
@@ -503,11 +538,21 @@ def run_session(url, replies, max_redirects=20, use_jar=True, factory_pairs=(('U
                         kind = 1
                 mreplies.append((st, bool(loc), kind, c))
             hops = [(resolver.host_of(ip) or ip, port, head, bd) for ip, port, head, bd in script.log]
-            return {'hops': hops, 'outcome': outcome, 'last': last,
+            for f in script.feeders:
+                f.cancel()
+            return {'hops': hops, 'outcome': outcome, 'last': last, 'consumed': consumed_bytes(script),
                     'answers': list(jar.answers) if jar is not None else [],
                     'mreplies': mreplies, 'bases': bases, 'init_pairs': init_pairs, 'init_url': init_url,
                     'conns': len(net.conns)}
     return compat.run(go())
+
+
+def consumed_bytes(script):
+    """per logged request: how many bytes of what the server offered on that connection the client took"""
+    out = []
+    for c in script.conns:
+        out.append(len(c.sent) - len(c.reader._buffer))
+    return out
 
 
 def classify(e):
@@ -577,6 +622,14 @@ def model_replies(log, replies, loads_iter):
             # REMOTE_ERRORS exception after the request, like a reset
             next(loads_iter, None)
             out.append((0, False, 3, None))
+            continue
+        if rep.get('mode', 'resp') == 'endless-1xx':
+            # the first interim response is handed on as a body-less response with status 100
+            next(loads_iter, None)
+            out.append((100, False, 0, None))
+            continue
+        if rep.get('mode', 'resp') == 'endless-headers':
+            out.append((0, False, 4, None))          # 'Header too big.' (ProtocolError)
             continue
         if rep.get('mode', 'resp') != 'resp':
             out.append((0, False, 3 if rep['mode'] == 'close' else 4, None))
@@ -807,7 +860,7 @@ def run_crawl(url, replies, tries, max_redirects, login=None, timeout=20, robots
     named = [(name_of(ip), port, head, bd) for ip, port, head, bd in script.log]
     connects = [(name_of(ip), port, head) for ip, port, head in script.connects]
     return {'visits': visits, 'events': list(events), 'hops': list(script.log), 'named_hops': named, 'tunnels': list(script.tunnels),
-            'connects': connects, 'mreplies': mreplies, 'exit': exit_code,
+            'connects': connects, 'consumed': consumed_bytes(script), 'mreplies': mreplies, 'exit': exit_code,
             'hung': hung, 'capped': capped[0], 'checkouts': len([e for e in events if e[0] == 'out']),
             'rhops': list(script.rlog), 'rmreplies': rmreplies, 'robots': robots, 'retry': retry, 'attempts': attempts[0],
             'rejects': rejects, 'answers': [], 'init_pairs': [], 'init_url': URLInfo.parse(url)}
